@@ -19,6 +19,7 @@ struct C20TPlan
   int process_name;          // 0: null
   int global_api;            // 1: free functions + process-global recorder (one run per child)
   int t0_records;            // thread 0 records too
+  int sequential;            // 1: every recording thread is joined before the next starts (thread ids recur)
 };
 struct C20IPlan
 {
@@ -31,7 +32,7 @@ const C20TPlan *c20t_plan();
 const char *c20_name(int i);           // static strings shared by both halves
 const char *c20_cat(int i);            // may be null
 const char *c20_path();
-void c20t_thread_begin(int slot, int named);
+void c20t_thread_begin(int slot, int named, unsigned long long thread_key);
 void c20t_recorded(int slot, int kind, int name, int cat, unsigned long long value);
 void c20t_saved();
 void c20trace_run();
